@@ -81,7 +81,7 @@ static bool bfs(const Cfg &cfg, const std::string &cell, size_t max_states, size
 	std::deque<Hist> frontier;
 	{
 		World *w0 = build(cfg, Hist());
-		seen.insert(h128(w0->canon()));
+		seen.insert(h128(w0->canon(true, false)));
 		delete w0;
 	}
 	frontier.push_back(Hist());
@@ -111,7 +111,7 @@ static bool bfs(const Cfg &cfg, const std::string &cell, size_t max_states, size
 			Hist h2 = h;
 			h2.push_back(en[i]);
 			if (report_if_violated(*x, h2, cell)) { delete x; return complete; }
-			H128 k = h128(x->canon());
+			H128 k = h128(x->canon(true, false));
 			delete x;
 			if (seen.insert(k).second)
 			{
